@@ -236,10 +236,22 @@ Record rcase := RC { rc_segs : list bytes; rc_got : list (N * bytes); rc_err : b
 
 Definition msg_eqb (a b : N * bytes) : bool := (fst a =? fst b) && bytes_eqb (snd a) (snd b).
 
+Fixpoint is_prefix (a b : list (N * bytes)) : bool :=
+  match a, b with
+  | [], _ => true
+  | x :: a', y :: b' => msg_eqb x y && is_prefix a' b'
+  | _, _ => false
+  end.
+
+(* without an error the handler has received exactly the model's messages;
+   with an error the protocol is stopped at once and messages still queued
+   between readLoop and the handler may be discarded (recvLoop exits on
+   stopChan): the handler has received a prefix of the model's messages *)
 Definition check_rcase (c : rcase) : bool :=
   let st := recv h_accepts max_buf (rc_segs c) in
-  list_eqb msg_eqb (delivered st) (rc_got c) &&
-  Bool.eqb (match status st with Running => false | _ => true end) (rc_err c).
+  let err := match status st with Running => false | _ => true end in
+  Bool.eqb err (rc_err c) &&
+  (if err then is_prefix (rc_got c) (delivered st) else list_eqb msg_eqb (delivered st) (rc_got c)).
 
 (* sender case: message lengths queued, the batching the harness inferred,
    segment payload lengths seen on the wire *)
